@@ -8,16 +8,20 @@ Driver glue for C57.
       init  observer ids joined by `,` (`-` = none): constructor arguments
       behs  one script per observer id 0,1,… joined by `;` (`_` = no observers); a script is the acts
             of that observer's 1st, 2nd, … call joined by `,` (`-` = empty; past the end: plain return);
-            act = `x|o` `:` removed ids joined by `.` `:` added ids joined by `.`   (`x` = raises)
+            act = `x|o` `:` commands joined by `.`   (`x` = raises after the commands); command =
+            `r<id>` removeObserver, `a<id>` addObserver, `p` publish a fresh event through the publisher (re-entrant)
       ops   joined by `,` (`-` = none): `e` emit the next event, `a<id>` addObserver, `r<id>` removeObserver
       → entries joined by `;`: `@<ids>` (registered observers when an emit starts), `<o>><event>` deliveries;
-        then `|main=<ids>`.  Events: `<k>` application event, `r<b>(<event>)` failure report.
+        then `|main=<ids>`.  Events: `<k>` application event, `s<k>` k-th event published by an observer,
+        `r<b>(<event>)` failure report.  `!overflow` if the nesting bound (number of `p` commands + 1) was hit.
   `C57 filter <default> <preds> <steps>`
       preds joined by `,` (`-` none): `L` level predicate, `y` `n` `m` constant, `i` invalid result
       steps joined by `;`: `s:<ns>:<lvl>` set, `c` clear, `q:<ns>` logLevelForNamespace, `e:<lvl|~>:<ns|~>` event
       ns = decimal code points joined by `_`, `-` = empty
       → per step `ok` / `!InvalidLogLevelError` / level / `<predicate answer>/<pos|neg|!TypeError>`
-  `C57 hist <size|N> <steps>`  steps: string over `e` (observe next event) and `r` (replayTo); `-` = none
+  `C57 hist <size|N> <steps> [<feed>]`  steps: string over `e` (observe next event) and `r` (replayTo); `-` = none
+      feed (optional; `-` = none): numbers joined by `,` — in every replay the target observer, on receiving its i-th
+      replayed event (0-based), logs feed[i] new events to the history observer itself (re-entrant)
       → per `r` the replayed event numbers `[..]`, or `!raised ValueError`
 -/
 namespace Twisted.Drv.C57
@@ -31,13 +35,19 @@ def dotIds (s : String) : Option (List Nat) :=
 
 def showIds (l : List Nat) : String := ",".intercalate (l.map toString)
 
+def decCmd (s : String) : Option Publish.Cmd :=
+  match s.toList with
+  | ['p'] => some .publish
+  | 'r' :: r => (String.ofList r).toNat?.map .remove
+  | 'a' :: r => (String.ofList r).toNat?.map .add
+  | _ => none
+
 def decAct (s : String) : Option Publish.Act :=
   match s.splitOn ":" with
-  | [f, r, a] => do
+  | [f, c] => do
     let raises ← if f = "x" then some true else if f = "o" then some false else none
-    let removes ← dotIds r
-    let adds ← dotIds a
-    pure { removes, adds, raises }
+    let cmds ← if c = "" then some [] else (c.splitOn ".").mapM decCmd
+    pure { cmds, raises }
   | _ => none
 
 def decScript (s : String) : Option (List Publish.Act) :=
@@ -60,13 +70,16 @@ def behOf (scripts : List (List Publish.Act)) : Publish.Beh := fun o n _ =>
 
 partial def showEv : Publish.Ev → String
   | .app k => toString k
+  | .sub k => "s" ++ toString k
   | .report b c => "r" ++ toString b ++ "(" ++ showEv c ++ ")"
 
 def showDel (d : Publish.Obs × Publish.Ev) : String := toString d.1 ++ ">" ++ showEv d.2
 
 def pubRun (live : Bool) (init : List Nat) (scripts : List (List Publish.Act)) (ops : List String) : Option String := do
   let beh := behOf scripts
-  let mut s : Publish.St := ⟨init, []⟩
+  -- every re-entrant publish consumes one `p` command of a script: this bound cannot be reached
+  let fuel := (scripts.map fun sc => (sc.map fun a => (a.cmds.filter (· == .publish)).length).sum).sum + 1
+  let mut s : Publish.St := { main := init, trace := [] }
   let mut out : Array String := #[]
   let mut k := 0
   for o in ops do
@@ -75,10 +88,11 @@ def pubRun (live : Bool) (init : List Nat) (scripts : List (List Publish.Act)) (
     | .emit _ =>
       out := out.push ("@" ++ showIds s.main)
       let n := s.trace.length
-      s := if live then Publish.publishMainLive beh 100000 (.app k) s else Publish.step beh s (.emit k)
+      s := if live then Publish.publishMainLive beh (fuel + 100000) (.app k) s else Publish.step beh fuel s (.emit k)
       out := out ++ ((s.trace.drop n).map showDel).toArray
       k := k + 1
-    | op => s := Publish.step beh s op
+    | op => s := Publish.step beh fuel s op
+  if s.overflow then pure "!overflow" else
   pure (";".intercalate out.toList ++ "|main=" ++ showIds s.main)
 
 def decText (s : String) : Option Filter.Text :=
@@ -117,7 +131,7 @@ def filterRun (d : Nat) (preds : List Filter.Pred) (steps : List String) : Optio
     | _ => none
   pure (";".intercalate out.toList)
 
-def histRun (size : Option Int) (steps : List Char) : Option String :=
+def histRun (size : Option Int) (steps : List Char) (feed : List Nat) : Option String :=
   match Buffer.Hist.new (α := Nat) size with
   | none => some "!raised ValueError"
   | some h0 => do
@@ -129,7 +143,16 @@ def histRun (size : Option Int) (steps : List Char) : Option String :=
         h := h.observe k
         k := k + 1
       else if c = 'r' then
-        out := out.push ("[" ++ showIds h.replay ++ "]")
+        -- number the events the target will feed: feed[i] fresh events at its i-th call, for the calls that happen
+        let counts := (List.range h.buf.length).map fun i => feed.getD i 0
+        let starts := counts.foldl (fun (acc : List Nat × Nat) c => (acc.1 ++ [acc.2], acc.2 + c)) ([], k)
+        let k0 := k
+        let f : Nat → List Nat := fun i =>
+          if i < counts.length then (List.range (counts.getD i 0)).map (· + starts.1.getD i k0) else []
+        let r := h.replayTo f
+        out := out.push ("[" ++ showIds r.1 ++ "]")
+        h := r.2
+        k := starts.2
       else none
     pure (if out.isEmpty then "-" else ";".intercalate out.toList)
 
@@ -146,12 +169,18 @@ def handle (args : List String) : String :=
       match init.toNat?, (if behs = "-" then some [] else (behs.splitOn ",").mapM decPred) with
       | some d, some preds => (filterRun d preds (ops.splitOn ";")).getD "bad-op"
       | _, _ => "bad-op"
+    else if m = "hist" then
+      let sz : Option (Option Int) := if init = "N" then some none else init.toInt?.map some
+      match sz, ids ops with
+      | some sz, some feed => (histRun sz (if behs = "-" then [] else behs.toList) feed).getD "bad-op"
+      | _, _ => "bad-op"
     else "bad-op"
   | ["hist", size, steps] =>
     let sz : Option (Option Int) := if size = "N" then some none else size.toInt?.map some
     match sz with
-    | some sz => (histRun sz (if steps = "-" then [] else steps.toList)).getD "bad-op"
+    | some sz => (histRun sz (if steps = "-" then [] else steps.toList) []).getD "bad-op"
     | none => "bad-op"
+
   | _ => "bad-op"
 
 end Twisted.Drv.C57
